@@ -59,6 +59,13 @@ def observe(text, cwd=None, logger=None, path=None):
     ev["sources"] = [{"name": n, "lines": len(src.split("\n"))} for n, src in logger.sources.items()]
     if session:
         ev["sources"] = [{"name": "main.fcp", "lines": len(text.split("\n"))}] + [x for x in ev["sources"] if x["name"] != "main.fcp"]
+    # a citation names a file by its base name; several registered sources may share it (same-named modules in different
+    # directories, and every module is registered under its bare name too): the cited line must exist in one of them
+    by_base = {}
+    for x in ev["sources"]:
+        b = os.path.basename(x["name"])
+        by_base[b] = max(by_base.get(b, 0), x["lines"])
+    ev["sources"] = [{"name": b, "lines": n} for b, n in sorted(by_base.items())]
     mx = max([s["lines"] for s in ev["sources"]], default=0)
     # a gutter line number belongs to the node cited just before it; it must at least exist in some source
     for g in ev.pop("gutters", []):
@@ -162,6 +169,17 @@ def run_c11(tier, seed):
                     body = ("mod m%d;\n" % (lvl + 1)) if lvl < depth else fault + "\n"
                     f.write('version: "3"\n\nstruct L%d { v @0: u8, }\n%s' % (lvl, body))
             inputs.append(("module-chain-depth-%d" % depth, 'version: "3"\nmod c%dd%d.m1;\nstruct T { a @0: u8, }\n' % (k, depth)))
+    # two imported modules with the SAME file name in different directories, the fault in the one imported first / second
+    for k, fault in enumerate(FAULTS):
+        for which in (0, 1):
+            d = os.path.join(chk.workdir, "s%dw%d" % (k, which))
+            for sub, bad in (("pa", which == 0), ("pb", which == 1)):
+                os.makedirs(os.path.join(d, sub), exist_ok=True)
+                with open(os.path.join(d, sub, "types.fcp"), "w") as f:
+                    f.write('version: "3"\n\n// %s\n%sstruct K%s { v @0: u8, }\n%s\n'
+                            % (sub, "\n" * (3 if sub == "pa" else 0), sub, fault if bad else ""))
+            inputs.append(("module-same-name-%s" % ("first" if which == 0 else "second"),
+                           'version: "3"\nmod s%dw%d.pa.types;\nmod s%dw%d.pb.types;\nstruct T { a @0: u8, }\n' % (k, which, k, which)))
     os.chdir(chk.workdir)       # `mod` paths of in-memory sources resolve against the cwd
     try:
         from fcp.error import Logger
@@ -169,7 +187,7 @@ def run_c11(tier, seed):
         rng.shuffle(inputs)           # sessions then mix short and long texts
         for i, (kind, text) in enumerate(inputs):
             # every third input belongs to a session of 25 calls that share one Logger, as a long-lived tool would
-            if kind.startswith("module-chain") or (i % 10 == 1 and _file_safe(text)):
+            if kind.startswith("module-") or (i % 10 == 1 and _file_safe(text)):
                 ev = observe(text, path=os.path.join(chk.workdir, "main.fcp"))
                 kind = kind + "/file-entry"
             elif i % 3 == 0:
